@@ -254,3 +254,7 @@ HARNESSES.append(
             thorough=[dict(Q, src=EVERY, width=w) for w in range(0, 9)] +
                      [dict(Q, pre=a, post=b, k=2, width=2, _budget=2400)
                       for a, b in P8.CONTEXTS if 'if (n)' not in a]))
+
+# the command line wiring of --indentwidth (shared with C09)
+from props import C09 as _C09
+HARNESSES.append(Harness('cli', _C09.cli, quick=[Q]))
